@@ -185,7 +185,17 @@ PATTERNS = {2: ["aa", "ab"], 3: ["aaa", "aab", "abc"], 4: ["aaaa", "aaab", "aabb
 NAMES = {"a": 211, "b": -321, "c": -211, "d": 321}
 
 
+def partial_cases():
+    """Chains whose leaves are a proper sub-multiset of the event type (a resonance inside a four-body event)."""
+    for ev_pat in ("aab", "abc", "aabb", "aabc", "aaab", "abcd", "aaaa"):
+        for ev in sorted(set(itertools.permutations(ev_pat))):
+            for k in range(2, len(ev_pat)):
+                for leaves in sorted(set(itertools.permutations(ev_pat, k))):
+                    yield {"leafseq": "".join(leaves), "event": "".join(ev), "shape": 0}
+
+
 def structure_cases():
+    yield from partial_cases()
     for n, pats in PATTERNS.items():
         for pat in pats:
             for leafseq in sorted(set(itertools.permutations(pat))):
